@@ -483,3 +483,29 @@ Definition cCase id inb e m o top pre ob := mkCase (zn id) inb e m o top (zb pre
 
 Definition mismatches (cs : list case) : list N :=
   map c_id (filter (fun c => negb (case_ok c)) cs).
+
+(* ---------- a sequence of transactions (the Quai part of a block) ---------- *)
+(* Every transaction starts from the balances the previous one left (after Finalize: no account marked,
+   empty ETX cache); a message refused with a consensus error is not included: its state is discarded. *)
+Record txn := mkTxn { t_inbound : bool; t_env : env; t_msg : msg; t_opq : opaque; t_top : action }.
+Record totals := mkTot { tot_charge : Z; tot_etx : Z; tot_burn : Z; tot_rent : Z; tot_inbound : Z }.
+Definition tot0 : totals := mkTot 0 0 0 0 0.
+Definition charge_of (m : msg) (r : result) : Z :=
+  match r with
+  | RInvalid => 0
+  | RDone used _ =>
+      if m_isETX m then 0
+      else match m_kind m with KNormal => used * m_price m | _ => m_gas m * m_price m end
+  end.
+Definition run_tx (t : txn) (b : bmap) (acc : totals) : bmap * totals :=
+  let '(s', r) := (if t_inbound t then apply_etx else apply_tx) (t_env t) (t_msg t) (t_opq t) (t_top t) (init b) in
+  if is_invalid r then (b, acc)
+  else (bal s',
+        mkTot (tot_charge acc + charge_of (t_msg t) r) (tot_etx acc + etx_total (etx s')) (tot_burn acc + burn s')
+              (tot_rent acc + e_rent (t_env t) * Z.of_nat (List.length (rent s')))
+              (tot_inbound acc + (if t_inbound t then m_value (t_msg t) else 0))).
+Fixpoint run_block (l : list txn) (b : bmap) (acc : totals) : bmap * totals :=
+  match l with
+  | [] => (b, acc)
+  | t :: r => let '(b', acc') := run_tx t b acc in run_block r b' acc'
+  end.
